@@ -13,11 +13,12 @@ def main():
         ext, active = P.run_extractor(flavour, cfg, files, units)
     except P.Undecided as e:
         print('UNDECIDED(extract):', e); sys.exit(2)
-    text, meta = P.assemble(flavour, cfg, files, active, ext)
-    gen = os.path.join(P.BUILD, f'gen_{flavour}.rs')
-    open(gen, 'w').write(text)
-    print('generated', gen, len(text.split('\n')), 'lines; units', len(meta['units']), 'obls', len(meta['obls']), 'rules', ext['rule_counts'])
-    res = P.run_verus(gen, extra_args=extra)
+    text, meta, gen, res, weak = P.verify_with_auto_weak(flavour, cfg, files, active, ext, 40, 0)
+    print('generated', gen, len(text.split('\n')), 'lines; units', len(meta['units']), 'obls', len(meta['obls']))
+    if weak: print('AUTO-WEAK', weak)
+    for fo in ext['files'].values():
+        for d in fo.get('degraded', []): print('DEGRADED', d)
+        for d in fo.get('auto_units', []): print('AUTO-UNIT', d)
     print('verus rc', res['rc'], 'wall %.1fs' % res['wall_s'])
     try:
         c = P.classify(res, meta, os.path.basename(gen))
